@@ -257,6 +257,9 @@ def _apply_history(n, hist):
                                    'acyclic' if ok else 'cyclic'))
         _, m2 = check_topo(top, named, None, None, 'the edited scheduler')
         msgs += m2
+        if ok:
+            msgs += ["after history %s: %s" % (hist, m)
+                     for m in check_list(top, named, [])]
     return top, jobs, model, msgs
 
 
